@@ -13,7 +13,11 @@
 #include "replay.h"
 
 typedef struct nsync_semaphore_s_ { void *sem_space[32]; } nsync_semaphore;
+#define WANT_UUT_MUTEX_COND_STRUCT
+#include "uut_structs.h"       /* struct mutex_cond as the tree under test defines it */
+#ifndef HAVE_UUT_MUTEX_COND_STRUCT
 struct mutex_cond { pthread_mutex_t mu; pthread_cond_t cv; uint32_t i; };      /* layout of nsync_semaphore_mutex.c */
+#endif
 void nsync_mu_semaphore_init (nsync_semaphore *s);
 void nsync_mu_semaphore_p (nsync_semaphore *s);
 int nsync_mu_semaphore_p_with_deadline (nsync_semaphore *s, struct timespec abs_deadline);
